@@ -106,12 +106,27 @@ def register(prop):
          "(encryption v0/v1), 0-2 extra installed keys, label, compression; non-trivial = >=1 variant judged; distinct = distinct (message type, mode, configuration)",
          assumptions=["reactions are compared on decoded plaintext (nonces differ); receivers are pristine instances re-created after every accepted variant"])
 
+    prop("C13", [dict(scn="C13", quick=1200, thorough=100000, wall_quick=150, wall_thorough=2400)],
+         "bench mode: an attacker endpoint injects into a running real node (tickers off): random bytes (packets and streams); grammar-aware hostile messages (inconsistent compound "
+         "counts, nesting to depth 2000, compress-in-compress, odd alive fields, msgpack type confusion, CRC headers, stream-only types on the packet path); every truncation, every "
+         "single-byte overwrite (3 values) and every bit flip of the first 12 bytes of genuine packets captured from a real sender; genuine streams cut AND stalled after every byte "
+         "offset plus byte mutations; declared Nodes/UserStateLen/UserMsgLen/encrypted-length beyond the caps followed by 200 kB of filler; 140 concurrent stalled push/pulls; hand-off "
+         "queue bursts; (thorough) an LZW bomb above the decompression cap; configurations label x encryption x GossipVerifyIncoming x SkipInboundLabelCheck x compression x protocol; "
+         "oracles: process survives (worker crash = violation), queues/counters within caps at every step, input that does not decode leaves digest/delegates untouched, oversized "
+         "declarations refused within two read-ahead buffers, every server-side connection closed within TCPTimeout, no handler goroutine left, listeners still answer a genuine "
+         "ping / TCP ping afterwards; non-trivial = >=1 input injected; distinct = distinct (mode, genuine message, configuration) tuples",
+         assumptions=["'does not decode' is decided by a harness-side decoder built from the library's own codec functions under the receiver's configuration"])
+
 NOT_CLAIMED = {}
 
 SIM_NOTE = ("trusted base: Go runtime + testing/synctest fake clock, the harness (scheduler, SimNet, oracles) under /verif/sim; "
             "assumes the guarded yield sites are the relevant preemption points; seeded search, not proof")
 
 META = {
+ "C13": dict(
+    level_text="Fault enumeration plus seeded search: complete truncation/cut/stall enumeration over captured genuine packets and streams, grammar-aware and random hostile inputs, against a real node in virtual time so that TCPTimeout-bounded clean-up and goroutine/connection leaks are observable; a panic anywhere in library code kills the worker and is attributed to its seed.",
+    design_ref="DESIGN.md §3 C13", level_note=SIM_NOTE,
+    technique="deterministic simulation (bench mode): hostile-input injection incl. exhaustive truncation / stream cut-and-stall points, resource-cap and leak oracles in virtual time"),
  "C14": dict(
     level_text="Capture-mutate-inject differential on real nodes: each tampered copy of genuine traffic must cause either no observable reaction or exactly the reaction of the original; complete single-bit-flip enumeration per sampled message plus structural and random variants, over seeded configurations.",
     design_ref="DESIGN.md §3 C14", level_note=SIM_NOTE,
